@@ -338,6 +338,9 @@ def observe(job):
         run_pass(p, circ)
     except MachineryError:
         raise
+    except TimeoutError as e:
+        # the harness's own wall-clock limit (a loaded machine, a large circuit): undecided, never a verdict about the pass
+        return {'skip': 'undecided: %s ran into the harness time limit (%s)' % (pname, e)}
     except Exception as e:       # noqa
         raised = '%s: %s' % (type(e).__name__, str(e)[:200])
     if raised:
